@@ -4,7 +4,26 @@ From SpyneV Require Import C15.Spec C15.OdictProofs C15.StoreProofs C15.OpProofs
 Import ListNotations.
 Open Scope Z_scope.
 
+Lemma FUEL_S : FUEL = S (pred FUEL).
+Proof. reflexivity. Qed.
+
 Local Opaque FUEL obs_keys.
+
+Lemma extends_unfold : forall fuel l n r,
+  nth_cls l n = Some r ->
+  extends_f (S fuel) l n =
+  match c_extends r with
+  | Some e => e
+  | None => match c_base r with Some b => extends_f fuel l b | None => None end
+  end.
+Proof. intros. simpl. rewrite H. reflexivity. Qed.
+
+Lemma get_extends_own : forall s n r e,
+  lookup s n = Some r -> c_extends r = Some e -> get_extends s n = e.
+Proof.
+  intros. unfold get_extends. rewrite FUEL_S. rewrite (extends_unfold _ _ _ r) by exact H.
+  rewrite H0. reflexivity.
+Qed.
 
 (** * every step is an [evo] over the classes it is documented to write *)
 Lemma step_evo : forall s o s' res,
@@ -25,15 +44,6 @@ Proof.
 Qed.
 
 (** * what is observed of a class that refers to no written class is unchanged *)
-Definition same_view (s s' : store) (c : cid) : Prop :=
-  lookup s' c = lookup s c /\
-  (forall d, obs d s' c = obs d s c) /\
-  (forall k, resolve s' c k = resolve s c k) /\
-  get_tname s' c = get_tname s c /\
-  get_extends s' c = get_extends s c /\
-  flat s' c = flat s c /\
-  verdicts s' c = verdicts s c.
-
 Lemma validate_native_int_ext : forall a a' v,
   (forall k, a k = a' k) -> validate_native_int a v = validate_native_int a' v.
 Proof. unfold validate_native_int. intros. repeat rewrite H. auto. Qed.
@@ -235,19 +245,6 @@ Proof.
   - exact Bc.
 Qed.
 
-Definition fresh_lookup (s : store) (c : cid) (kw : kwargs) (fuel : nat) (k : akey) : option aval :=
-  match requested k kw with
-  | Some v => Some v
-  | None =>
-    if k =? K_EXPLICIT_TN then Some (VBool false)
-    else if k =? K_NULLABLE then
-      match resolve s c K_NULLABLE with
-      | Some v => Some v
-      | None => resolve_f fuel (cl s) c k
-      end
-    else resolve_f fuel (cl s) c k
-  end.
-
 Lemma zassoc_fresh_attrs : forall s c k,
   zassoc k (fresh_attrs s c) =
   if k =? K_EXPLICIT_TN then Some (VBool false)
@@ -288,3 +285,130 @@ Proof.
     + simpl. exists c. split; auto. eapply lookup_some; eauto.
 Qed.
 
+
+(** * fresh: a customized complex class *)
+Lemma resolve_unfold : forall fuel l n k r,
+  nth_cls l n = Some r ->
+  resolve_f (S fuel) l n k =
+  match zassoc k (c_attrs r) with
+  | Some v => Some v
+  | None => match c_base r with Some b => resolve_f fuel l b k | None => None end
+  end.
+Proof. intros. simpl. rewrite H. reflexivity. Qed.
+
+Lemma fresh_complex : forall fuel s c kw ca caa s' n,
+  inv s -> customize_complex fuel s c kw ca caa = ROk (s', n) ->
+  exists r r',
+    lookup s c = Some r /\ is_simple (c_kind r) = false /\
+    n = size s /\ lookup s' n = Some r' /\
+    c_kind r' = c_kind r /\ c_base r' = Some c /\ c_orig r' = Some (root_of s c) /\
+    forall fuel k, resolve_f (S fuel) (cl s') n k = fresh_lookup s c kw fuel k.
+Proof.
+  intros fuel s c kw ca caa s' n I H.
+  destruct (customize_complex_ok _ _ _ _ _ _ _ _ I H) as [N [Z [I' [X [R [s0 [Q X0]]]]]]].
+  destruct (customize_plain_shape _ _ _ _ _ Q) as [r [t0 [tnm [L [K [T [_ S0]]]]]]].
+  cbv zeta in S0. subst n.
+  set (r0 := mkcls (c_kind r) (Some c) (apply_kwargs kw (fresh_attrs s c)) (Some tnm)
+                   (Some (orig_or_self r c)) (Some (get_extends s c)) (c_fields r)) in *.
+  assert (L0 : lookup s0 (size s) = Some r0).
+  { subst s0. destruct (c =? CID_COMPLEXMODEL);
+      [| rewrite lookup_add_variant]; rewrite lookup_set_dca; apply lookup_alloc_new. }
+  destruct X0 as [_ [_ [X0 _]]]. destruct (X0 _ _ L0) as [r' [L' [S1 [S2 [S3 S4]]]]].
+  exists r, r'. split; [exact L | split; [exact K | split; [reflexivity | split; [exact L' |]]]].
+  split; [rewrite S1; reflexivity | split; [rewrite S2; reflexivity | split]].
+  - rewrite S4. unfold r0. simpl. unfold root_of. rewrite L. reflexivity.
+  - intros. rewrite (resolve_unfold _ _ _ _ r') by exact L'.
+    rewrite S3, S2. unfold r0. cbn [c_attrs c_base].
+    rewrite zassoc_apply_kwargs. unfold fresh_lookup.
+    destruct (requested k kw); [reflexivity |]. rewrite zassoc_fresh_attrs.
+    assert (AG : resolve_f fuel0 (cl s') c k = resolve_f fuel0 (cl s) c k).
+    { destruct I as [W _]. destruct X as [_ [XB _]].
+      apply (resolve_agree (cl s) _ (fun x => 0 <= x < size s)).
+      - intros. apply (XB x H0).
+      - apply wf_closed. exact W.
+      - eapply lookup_some; eauto. }
+    rewrite AG.
+    destruct (k =? K_EXPLICIT_TN); [reflexivity |].
+    destruct (k =? K_NULLABLE) eqn:E; reflexivity.
+Qed.
+
+(** customize() without child attributes copies the field table *)
+Lemma customize_plain_fields : forall s c kw s' n,
+  customize_plain s c kw = ROk (s', n) ->
+  fields_of s' n = fields_of s c /\ get_extends s' n = get_extends s c.
+Proof.
+  intros.
+  destruct (customize_plain_shape _ _ _ _ _ H) as [r [t0 [tnm [L [K [T [N S0]]]]]]].
+  cbv zeta in S0. subst n.
+  set (r0 := mkcls (c_kind r) (Some c) (apply_kwargs kw (fresh_attrs s c)) (Some tnm)
+                   (Some (orig_or_self r c)) (Some (get_extends s c)) (c_fields r)) in *.
+  assert (L0 : lookup s' (size s) = Some r0).
+  { subst s'. destruct (c =? CID_COMPLEXMODEL);
+      [| rewrite lookup_add_variant]; rewrite lookup_set_dca; apply lookup_alloc_new. }
+  split.
+  - unfold fields_of. rewrite L0, L. reflexivity.
+  - apply (get_extends_own _ _ r0); [exact L0 | reflexivity].
+Qed.
+
+(** * order *)
+(** the class statement: own fields are the declared ones, in declaration order *)
+Lemma subclass_fields : forall s parent name fs s' n,
+  subclass s parent name fs = ROk (s', n) ->
+  fields_of s' n = fs /\ NoDup (keys fs) /\
+  (fields_of s parent <> [] -> get_extends s' n = Some parent).
+Proof.
+  intros. destruct (subclass_shape _ _ _ _ _ _ H) as [rp [ex [L [K [O [V1 [V2 [X [Y [N S']]]]]]]]]].
+  subst. apply distinct_keys_NoDup in V2.
+  assert (F : od_update [] fs = fs).
+  { rewrite od_update_fresh; auto. }
+  split; [| split; [exact V2 |]].
+  - unfold fields_of. rewrite lookup_alloc_new. simpl. exact F.
+  - unfold fields_of. rewrite L. intros NE.
+    destruct X as [X | X]; subst ex.
+    + destruct Y as [Y _]. specialize (Y eq_refl). contradiction.
+    + apply (get_extends_own _ _ _ _ (lookup_alloc_new _ _)). reflexivity.
+Qed.
+
+(** flat field table: the parent's flat table first, then the own fields that
+    are new, each in its own order; a redefined name keeps the parent's place *)
+Lemma flat_order : forall fuel l c r,
+  nth_cls l c = Some r ->
+  keys (flat_f (S fuel) l c) =
+  first_ins (keys (match extends_f FUEL l c with Some p => flat_f fuel l p | None => [] end))
+            (keys (c_fields r)).
+Proof. intros. simpl. rewrite H. apply keys_od_update. Qed.
+
+Lemma flat_order_disjoint : forall fuel l c r,
+  nth_cls l c = Some r -> NoDup (keys (c_fields r)) ->
+  let parent := match extends_f FUEL l c with Some p => flat_f fuel l p | None => [] end in
+  (forall k, In k (keys (c_fields r)) -> ~ In k (keys parent)) ->
+  keys (flat_f (S fuel) l c) = keys parent ++ keys (c_fields r).
+Proof. intros. rewrite (flat_order _ _ _ _ H). apply first_ins_fresh; auto. Qed.
+
+Lemma flat_parent_prefix : forall fuel l c r,
+  nth_cls l c = Some r ->
+  exists rest, keys (flat_f (S fuel) l c) =
+    keys (match extends_f FUEL l c with Some p => flat_f fuel l p | None => [] end) ++ rest.
+Proof. intros. rewrite (flat_order _ _ _ _ H). apply first_ins_prefix. Qed.
+
+Lemma flat_NoDup : forall fuel l c, NoDup (keys (flat_f fuel l c)).
+Proof.
+  induction fuel; simpl; intros.
+  - constructor.
+  - destruct (nth_cls l c); [| constructor]. apply NoDup_od_update.
+    destruct (extends_f FUEL l c); [apply IHfuel | constructor].
+Qed.
+
+(** a class without base class, parent and fields refers to nothing *)
+Lemma reaches_leaf : forall l x r z,
+  nth_cls l x = Some r -> c_base r = None ->
+  (c_extends r = None \/ c_extends r = Some None) -> c_fields r = [] ->
+  reaches l x z -> z = x.
+Proof.
+  intros l x r z N B E F R. inversion R; subst; auto.
+  rewrite N in H. inversion H; subst r0.
+  destruct H0 as [X | [X | [k X]]].
+  - congruence.
+  - destruct E; congruence.
+  - rewrite F in X. contradiction.
+Qed.
